@@ -35,6 +35,7 @@ TNext ==
       IF ev.e = "Reset" THEN sync' = TRUE
       ELSE IF ~sync THEN UNCHANGED sync
       ELSE IF ev.e = "Fault" THEN Flag(l, <<"fault">>, [kind |-> ev.kind, where |-> ev.where]) /\ sync' = FALSE
+      ELSE IF ev.e = "SweepDone" THEN sync' = TRUE
       ELSE LET errs == IF ev.e = "Render" THEN RenderEventErrs(ev) ELSE ParseEventErrs(ev) IN
            /\ sync' = TRUE
            /\ IF errs # {} THEN Flag(l, SetToSeq(errs), IF ev.e = "Parse" THEN [lit |-> Literal(ev.text)] ELSE [dec |-> PlainDecimal(ev.text)]) ELSE TRUE
